@@ -50,8 +50,19 @@ def main():
     with open(sys.argv[2], "w") as fh:
         for it in job["items"]:
             prob = problems.to_nucs(it["P"])
+            # history: the problem object was initialised / given to a solver / partly solved BEFORE it is split
+            used = it.get("used", 0)
+            try:
+                if used == 1:
+                    prob.init()
+                elif used == 2:
+                    solve_all(prob)
+                elif used == 3:
+                    next(BacktrackSolver(prob, log_level="ERROR").solve(), None)
+            except Exception:  # noqa
+                pass
             before = desc(prob)
-            rec = {"rid": it["rid"], "P": before, "k": it["k"], "v": it["v"], "raised": "", "parts": [], "sols": [],
+            rec = {"rid": it["rid"], "P": before, "k": it["k"], "v": it["v"], "used": it.get("used", 0), "raised": "", "parts": [], "sols": [],
                    "status": [], "whole": []}
             try:
                 parts = prob.split(it["k"], it["v"])
